@@ -69,7 +69,23 @@ spec fn cell(r: int, b: int, n: int) -> int { r * n + b }
 // identity of an item = the byte stream its Hash impl feeds the hasher (C16)
 pub uninterp spec fn item_key<I>(item: I) -> int;
 // murmur3_x64_128(seed, bytes(key)).h1 % nb
-pub uninterp spec fn bucket(key: int, seed: u64, nb: u32) -> int;
+// the documented bucket of a row: h1 of MurmurHash3-x64-128(seed, item bytes) modulo the number of buckets (reference derivation, C16)
+pub uninterp spec fn murmur_h1_key(seed: u64, key: int) -> u64;
+pub open spec fn bucket(key: int, seed: u64, nb: u32) -> int { (murmur_h1_key(seed, key) % (nb as u64)) as int }
+// the hasher is a leaf here (its digest is the subject of unit hash_murmur)
+#[verifier::external_body] struct MurmurHash3X64128 { _p: u8 }
+impl MurmurHash3X64128 {
+    uninterp spec fn seed_of(&self) -> u64;
+    uninterp spec fn h1(&self) -> u64;
+    #[verifier::external_body] fn with_seed(seed: u64) -> (r: Self) ensures r.seed_of() == seed { unimplemented!() }
+    #[verifier::external_body] fn finish128(&self) -> (r: (u64, u64)) ensures r.0 == self.h1() { unimplemented!() }
+}
+// R7 shim for `item.hash(&mut hasher)`: feeding the item to a hasher seeded with s makes its first digest word murmur_h1_key(s, item_key(item))
+#[verifier::external_body]
+fn vx_hash_item<I: Hash>(item: &I, hasher: &mut MurmurHash3X64128)
+  ensures final(hasher).h1() == murmur_h1_key(old(hasher).seed_of(), item_key(*item))
+{ unimplemented!() /* item.hash(hasher) */ }
+
 
 pub enum Ev { Upd(int, int), Halve, Decay(f64) }
 spec fn scale(e: Ev, v: int) -> int {
@@ -191,12 +207,15 @@ proof fn lemma_cell_surj(i: int, nh: int, nb: int)
 
 const DEFAULT_UPDATE_SEED : u64 = 9001 ;
 
+
 const MAX_TABLE_ENTRIES : usize = 1 << 30 ;
+
 
 
 
 struct CountMinSketch < T : CountMinValue > {
 num_hashes : u8 , num_buckets : u32 , seed : u64 , seed_hash : u16 , total_weight : T , counts : Vec < T > , hash_seeds : Vec < u64 > , }
+
 
 
 
@@ -228,11 +247,13 @@ impl<T: CountMinValue> CountMinSketch<T> {
               self.counts@[#[trigger] cell(r, b, self.num_buckets as int)].val() == model_cell(h, self.hash_seeds@[r], b, self.num_buckets)
     }
 
-    #[verifier::external_body]
-    fn bucket_index<I: Hash>(&self, item: &I, seed: u64) -> (r: usize)
-      requires self.num_buckets > 0,
-      ensures r == bucket(item_key(*item), seed, self.num_buckets), r < self.num_buckets,
-    { unimplemented!() }
+    fn bucket_index < I : Hash > ( & self , item : & I , seed : u64 ) -> ( r : usize ) requires self . num_buckets > 0 , ensures
+/*@C08.bucket_formula,C16.cm_bucket*/ r == bucket ( item_key ( * item ) , seed , self . num_buckets ) , r < self . num_buckets , {
+let mut hasher = MurmurHash3X64128 :: with_seed ( seed ) ;
+vx_hash_item ( item , & mut hasher ) ;
+let ( h1 , _ ) = hasher . finish128 ( ) ;
+( h1 % self . num_buckets as u64 ) as usize }
+
 
     fn make ( num_hashes : u8 , num_buckets : u32 , seed : u64 , entries : usize ) -> ( r : Self ) requires cm_law :: < T > ( ) , num_hashes >= 1 , num_buckets >= 3 , entries == ( num_hashes as int ) * ( num_buckets as int ) , entries < MAX_TABLE_ENTRIES , seed_hash_spec ( seed ) != 0 , ensures r . wf ( ) , r . num_hashes == num_hashes , r . num_buckets == num_buckets , r . seed == seed ,
 /*@C18.cm_fixed_size*/ r . counts @ . len ( ) == num_hashes as int * num_buckets as int ,
@@ -252,10 +273,12 @@ num_hashes , num_buckets , seed , seed_hash , total_weight : T :: ZERO , counts 
 
 
 
+
     fn new ( num_hashes : u8 , num_buckets : u32 ) -> ( r : Self ) requires cm_law :: < T > ( ) , num_hashes > 0 , num_buckets >= 3 , ( num_hashes as int ) * ( num_buckets as int ) < MAX_TABLE_ENTRIES , seed_hash_spec ( DEFAULT_UPDATE_SEED ) != 0 , ensures r . wf ( ) , r . num_hashes == num_hashes , r . num_buckets == num_buckets , r . seed == DEFAULT_UPDATE_SEED ,
 /*@C18.cm_fixed_size*/ r . counts @ . len ( ) == ( num_hashes as int ) * ( num_buckets as int ) ,
 /*@C08.empty_model*/ r . models ( Seq :: < Ev > :: empty ( ) ) , {
 Self :: with_seed ( num_hashes , num_buckets , DEFAULT_UPDATE_SEED ) }
+
 
 
     fn with_seed ( num_hashes : u8 , num_buckets : u32 , seed : u64 ) -> ( r : Self ) requires cm_law :: < T > ( ) , num_hashes > 0 , num_buckets >= 3 , ( num_hashes as int ) * ( num_buckets as int ) < MAX_TABLE_ENTRIES , seed_hash_spec ( seed ) != 0 , ensures r . wf ( ) , r . num_hashes == num_hashes , r . num_buckets == num_buckets , r . seed == seed ,
@@ -265,20 +288,25 @@ let entries = entries_for_config ( num_hashes , num_buckets ) ;
 Self :: make ( num_hashes , num_buckets , seed , entries ) }
 
 
+
     fn num_hashes ( & self ) -> ( r : u8 ) ensures r == self . num_hashes , {
 self . num_hashes }
+
 
 
     fn num_buckets ( & self ) -> ( r : u32 ) ensures r == self . num_buckets , {
 self . num_buckets }
 
 
+
     fn seed ( & self ) -> ( r : u64 ) ensures r == self . seed , {
 self . seed }
 
 
+
     fn is_empty ( & self ) -> ( r : bool ) requires cm_law :: < T > ( ) , ensures r == ( self . total_weight . val ( ) == 0 ) , {
 self . total_weight == T :: ZERO }
+
 
 
 
@@ -291,15 +319,18 @@ self . update_with_weight ( item , T :: ONE ) ;
 
 
 
+
     fn lower_bound < I : Hash > ( & self , item : I ) -> ( r : T ) requires self . wf ( ) , ensures
 /*@C08.one_sided*/ forall | h : Seq < Ev > | # [ trigger ] self . models ( h ) && nonneg ( h ) ==> truth ( h , item_key ( item ) ) <= r . val ( ) <= total ( h ) , {
 self . estimate ( item ) }
 
 
 
+
     fn total_weight ( & self ) -> ( r : T ) ensures
 /*@C08.total_exact*/ forall | h : Seq < Ev > | # [ trigger ] self . models ( h ) ==> r . val ( ) == total ( h ) , {
 self . total_weight }
+
 
 
 
@@ -357,6 +388,7 @@ lemma_push ( h , Ev :: Upd ( item_key ( item ) , weight . val ( ) ) ) ;
 
 
 
+
     fn estimate < I : Hash > ( & self , item : I ) -> ( min : T ) requires self . wf ( ) , ensures
 /*@C08.estimate_min*/ forall | r : int | 0 <= r < self . num_hashes ==> min . val ( ) <= # [ trigger ] self . row_val ( item_key ( item ) , r ) ,
 /*@C08.estimate_min*/ exists | r : int | 0 <= r < self . num_hashes && min . val ( ) == # [ trigger ] self . row_val ( item_key ( item ) , r ) ,
@@ -397,6 +429,7 @@ min }
 
 
 
+
     fn merge ( & mut self , other : & CountMinSketch < T > ) requires old ( self ) . wf ( ) , other . wf ( ) , old ( self ) . num_hashes == other . num_hashes , old ( self ) . num_buckets == other . num_buckets , old ( self ) . seed == other . seed , T :: in_range ( old ( self ) . total_weight . val ( ) + other . total_weight . val ( ) ) , forall | i : int | 0 <= i < old ( self ) . counts @ . len ( ) ==> # [ trigger ] fits ( old ( self ) . counts @ [ i ] , other . counts @ [ i ] ) , ensures final ( self ) . wf ( ) ,
 /*@C18.cm_fixed_size*/ final ( self ) . same_config ( old ( self ) ) ,
 /*@C08.merge_cells*/ forall | i : int | 0 <= i < old ( self ) . counts @ . len ( ) ==> # [ trigger ] final ( self ) . counts @ [ i ] . val ( ) == old ( self ) . counts @ [ i ] . val ( ) + other . counts @ [ i ] . val ( ) ,
@@ -430,6 +463,7 @@ lemma_concat_upd ( h1 , h2 , 0 , 0 , self . num_buckets ) ;
 }
 
 
+
 }
 
 impl<T: UnsignedCountMinValue> CountMinSketch<T> {
@@ -458,6 +492,7 @@ lemma_cell_bound ( r , b , self . num_hashes as int , self . num_buckets as int 
 
 
 
+
     fn decay ( & mut self , decay : f64 ) requires old ( self ) . wf ( ) , decay_ok ( decay ) , ensures final ( self ) . wf ( ) ,
 /*@C18.cm_fixed_size*/ final ( self ) . same_config ( old ( self ) ) ,
 /*@C08.decay_cells*/ forall | i : int | 0 <= i < old ( self ) . counts @ . len ( ) ==> # [ trigger ] final ( self ) . counts @ [ i ] . val ( ) == decay_spec ( old ( self ) . counts @ [ i ] . val ( ) , decay ) ,
@@ -483,6 +518,7 @@ lemma_cell_bound ( r , b , self . num_hashes as int , self . num_buckets as int 
 }
 
 
+
 }
 
 // hash leaves (C16): contracts define the spec functions
@@ -506,6 +542,7 @@ assert ( num_hashes as int * num_buckets as int <= 255 * 0xffff_ffff ) by ( nonl
 let entries = ( num_hashes as usize ) . checked_mul ( num_buckets as usize ) . expect ( "" ) ;
 assert! ( entries < MAX_TABLE_ENTRIES ) ;
 entries }
+
 
 
 
